@@ -169,8 +169,11 @@ Respond(i) ==
   /\ LET u == w[i].u
          x == w[i].cur IN
      CASE kind[x] = "page" ->
+            \* rule.py _process_scrape_info: a link is recorded only if the URL filters accept ITS url (host rule) with
+            \* the record it would get (level rule)
             /\ Conclude(i, "done", IF LevelOK(lvl[u] + 1)
-                                    THEN { <<k[2], lvl[u] + 1>> : k \in {e \in links : e[1] = x} } ELSE {})
+                                    THEN { <<k[2], lvl[u] + 1>> : k \in {e \in links : e[1] = x /\ host[e[2]] = host[Start]} }
+                                    ELSE {})
             /\ UNCHANGED pool
        [] kind[x] = "redirect" ->
             IF w[i].hops + 1 > MaxRedir THEN Conclude(i, "error", {}) /\ UNCHANGED pool
